@@ -139,7 +139,9 @@ func stateCode(s string) int64 {
 	return 4
 }
 
-func addrTerm(a common.Address) string { return "(" + kN(a.PublicSpendKey) + ", " + kN(a.PublicViewKey) + ")" }
+func addrTerm(a common.Address) string {
+	return "(" + kN(a.PublicSpendKey) + ", " + kN(a.PublicViewKey) + ")"
+}
 
 // Facts are the signature / curve results the model takes as parameters; each is
 // computed by calling the repository's crypto on the operands the code would use.
